@@ -245,6 +245,20 @@ def run(ctx):
                 ctx.violation("loop-no-consumer|fn=%s" % short(n), sp_file_line(f.term(h).get("sp")),
                               "a loop in `%s` has a cycle that consumes no input (no iterator advance / cursor bump on it): a possible livelock on some text" % short(n))
     ctx.note("%d loops in %d functions; must-consume functions: %s" % (nloops, len(scope), sorted(short(m) for m in M)[:12]))
+    # recursion is a loop too, and one whose depth is bounded by the stack, not by the input: none on the assembler path
+    ctx.instance(1)
+    rec = []
+    local = [n for n in scope if n in prog.fns]
+    for n in sorted(local):
+        for c in sorted(ctx.cg.callees(n)):
+            if c in prog.fns and prog.fns[c].bkind == "fn" and n in ctx.cg.reachable([c]):
+                rec.append((n, c))
+    ctx.oblig(not rec, {"recursive calls on the assembler path": len(rec)}, "call graph of the local functions is acyclic")
+    for n, c in rec[:4]:
+        site = [t.get("sp") for b, t, cc in prog.fns[n].calls() if cc == c]
+        ctx.violation("recursion|%s->%s" % (short(n), short(c)), sp_file_line(site[0]) if site else prog.fns[n].file_line(),
+                      "`%s` calls `%s`, which can call back into it: the recursion depth grows with the input (e.g. one frame per comment line), "
+                      "so a long enough text overflows the stack instead of being assembled or rejected" % (short(n), short(c)))
     ctx.finish_rule()
 
     # ------------------------------------------------------------------ R5
